@@ -1683,6 +1683,8 @@ class ListProxy(list):
     def extend(self, objects):
         if self._parameter.names:
             self._warn('.append')
+        # consumed twice below: an iterator would be exhausted the first time
+        objects = list(objects)
         with self._trigger():
             super().extend(objects)
             self._parameter._objects.extend(objects)
